@@ -28,6 +28,8 @@ let viol_str = function
   | VAfterDestroy t -> Printf.sprintf "callback-after-destroy token t%d called back after ares_destroy() returned" (int_of_nat t)
   | VIncompleteAtDestroy t -> Printf.sprintf "callback-missing token t%d never completed although the channel was destroyed" (int_of_nat t)
   | VIncompleteAtCancel t -> Printf.sprintf "callback-missing-at-cancel token t%d was pending at ares_cancel() and is still pending when it returned" (int_of_nat t)
+  | VWrongStatusAtCancel (t, st) -> Printf.sprintf "wrong-status-at-cancel token t%d was pending at ares_cancel() and completed inside it with status %s instead of ARES_ECANCELLED (24)" (int_of_nat t) (string_of_z st)
+  | VWrongStatusAtDestroy (t, st) -> Printf.sprintf "wrong-status-at-destroy token t%d was pending at ares_destroy() and completed inside it with status %s instead of ARES_EDESTRUCTION (16)" (int_of_nat t) (string_of_z st)
 
 (* ------------------------------------------------------------------------------------ *)
 (* projection of the log of one case onto lifecycle events                               *)
@@ -57,7 +59,9 @@ let project lines =
        (match !cancel_stack with
         | top :: r -> cancel_stack := r; if top then evs := EvCancelEnd :: !evs
         | [] -> ())
-     | "SETSERVERS" :: _ -> evs := EvSetServers :: !evs
+     (* the server list is about to change (the event stands before the callbacks the change triggers) *)
+     | "OP" :: _ :: op :: _ when starts_with "setservers" op || op = "reinit" -> evs := EvSetServers :: !evs
+     | "CBOP" :: op :: _ when starts_with "setservers" op || op = "reinit" -> evs := EvSetServers :: !evs
      | "DESTROY" :: "begin" :: _ -> evs := EvDestroyBegin :: !evs
      | ["DESTROY"; "end"] -> evs := EvDestroyEnd :: !evs
      | "ENDSTATE" :: rest ->
@@ -403,7 +407,7 @@ let () =
       nreq := !nreq + List.length (List.filter (function EvReq _ -> true | _ -> false) evs);
       ncb := !ncb + List.length (List.filter (function EvCb _ -> true | _ -> false) evs);
       (* ---- the property's own oracle ---- *)
-      let vs = violations evs in
+      let vs = violations evs @ status_violations evs in
       let seen = Hashtbl.create 4 in
       let fails = ref [] in
       List.iter (fun v ->
